@@ -170,6 +170,21 @@ fn extend_lifetime(
     unsafe { mem::transmute(iter) }
 }
 
+impl TaikoGradualDifficulty {
+    /// Same as [`Iterator::nth`] except that `n` is clamped to the amount of
+    /// remaining values, i.e. the last value is returned if fewer than
+    /// `n + 1` values remain.
+    pub(crate) fn nth_clamped(&mut self, n: usize) -> Option<TaikoDifficultyAttributes> {
+        let take = cmp::min(n, self.len().saturating_sub(1));
+
+        for _ in 0..take {
+            self.process_next_hit()?;
+        }
+
+        self.next()
+    }
+}
+
 impl Iterator for TaikoGradualDifficulty {
     type Item = TaikoDifficultyAttributes;
 
@@ -195,13 +210,14 @@ impl Iterator for TaikoGradualDifficulty {
     }
 
     fn nth(&mut self, n: usize) -> Option<Self::Item> {
-        let take = cmp::min(n, self.len().saturating_sub(1));
+        // Fewer than `n + 1` values remain so the iterator is exhausted
+        if n >= self.len() {
+            self.idx = self.total_hits;
 
-        for _ in 0..take {
-            self.process_next_hit()?;
+            return None;
         }
 
-        self.next()
+        self.nth_clamped(n)
     }
 }
 
